@@ -246,6 +246,7 @@ func fact4Batch(evs []event) {
 		e    event
 		prog string
 		c    *jqrun.Compiled
+		ref  []jqrun.GojqResult
 	}
 	var items []item
 	for _, e := range evs {
@@ -262,7 +263,25 @@ func fact4Batch(evs []event) {
 			e["f4"] = map[string]any{"skip": "bare engine: " + strings.SplitN(cerr, ":", 2)[0]}
 			continue
 		}
-		items = append(items, item{e, prog, c})
+		// reference first: a program the bare engine cannot finish (timeout, engine panic) is not sent to the command line
+		runs := make([]jqrun.GojqResult, len(ins))
+		broken := ""
+		for i := range ins {
+			runs[i] = c.Run(ins[i], nil, time.Second)
+			if n := len(runs[i].Out); n > 0 && runs[i].Out[n-1]["k"] == "x" {
+				broken, _ = runs[i].Out[n-1]["why"].(string)
+				break
+			}
+		}
+		if broken != "" {
+			if strings.HasPrefix(broken, "panic") {
+				e["f4"] = map[string]any{"skip": "engine panic", "bare": broken}
+			} else {
+				e["f4"] = map[string]any{"skip": "bare engine: " + broken}
+			}
+			continue
+		}
+		items = append(items, item{e, prog, c, runs})
 	}
 	vin := "[" + strings.Join(f4Inputs, ",") + "]"
 	var run func(its []item)
@@ -274,7 +293,7 @@ func fact4Batch(evs []event) {
 		for k := range its {
 			progs[k] = its[k].prog
 		}
-		r := jqrun.Fq([]string{"fq", "-nc", "--argjson", "__vin", vin, jqrun.BatchExpr(progs)}, nil, nil, 30*time.Second)
+		r := jqrun.Fq([]string{"fq", "-nc", "--argjson", "__vin", vin, jqrun.BatchExpr(progs)}, nil, nil, 15*time.Second)
 		var got [][][]jqrun.Outcome
 		var err error
 		if !r.TimedOut && r.Exit == 0 {
@@ -307,8 +326,8 @@ func fact4Batch(evs []event) {
 		for k, it := range its {
 			runs := []any{}
 			for i := range ins {
-				g := it.c.Run(ins[i], nil, 5*time.Second)
-				if n := len(g.Out); n > 0 && (g.Out[n-1]["k"] == "x" || g.Out[n-1]["k"] == "halt") {
+				g := it.ref[i]
+				if n := len(g.Out); n > 0 && g.Out[n-1]["k"] == "halt" {
 					continue
 				}
 				if len(g.Side) > 0 {
